@@ -271,12 +271,9 @@ func NewTables(u *Universe) (*Tables, error) {
 			return nil, fmt.Errorf("float point %s is integral; the property is about non-integral floats", name)
 		}
 		t.fltName[want] = name
-		// usable as a float32 when the float32 nearest to it denotes the same decimal text
-		f32 := float32(want)
-		if !math.IsInf(float64(f32), 0) && f32 != 0 {
-			if back, _ := strconv.ParseFloat(strconv.FormatFloat(float64(f32), 'g', -1, 32), 64); back == want {
-				t.F32ok[name] = true
-			}
+		// handed over as a float32 only when that loses nothing (then "the value" is beyond dispute)
+		if float64(float32(want)) == want {
+			t.F32ok[name] = true
 		}
 	}
 	return t, nil
